@@ -322,7 +322,15 @@ def pipe_resilient(exe, lines, per_line_timeout=20.0, env=None):
     out = []
     i = 0
     n = len(lines)
+    dead = set()      # request keys (kind, grammar id) that already hung once: not run again
+
+    def key(l):
+        return tuple(l.split("\t")[:2])
     while i < n:
+        if key(lines[i]) in dead:
+            out.append("TIMEOUT")
+            i += 1
+            continue
         p = subprocess.Popen([exe], stdin=subprocess.PIPE, stdout=subprocess.PIPE, stderr=subprocess.DEVNULL,
                              env=e, bufsize=0)
         chunk = lines[i:]
@@ -365,5 +373,7 @@ def pipe_resilient(exe, lines, per_line_timeout=20.0, env=None):
         i += got
         if got < len(chunk):
             out.append(status)
+            if status == "TIMEOUT":
+                dead.add(key(lines[i]))
             i += 1
     return out
